@@ -121,7 +121,10 @@ def run(chk, prog):
         # the accumulator starts from zero for every bunch: its reset is executed once per iteration of the bunch loop,
         # outside the sum loop and under no condition
         zl = [id(L) for L in z.loops]
-        zg = [g for g, pol in z.guards if isinstance(g, dict) and g.get("k") not in ("SwitchCase", "Catch")]
+        # (a condition the sum itself is under - the early `continue` for an empty bucket - may guard the reset too)
+        accg = {(g["id"] if isinstance(g, dict) and "id" in g else A.show(g) if isinstance(g, dict) else str(g), pol) for g, pol in acc.guards}
+        zg = [g for g, pol in z.guards if isinstance(g, dict) and g.get("k") not in ("SwitchCase", "Catch") and
+              ((g["id"] if "id" in g else A.show(g)), pol) not in accg]
         chk.check(len(acc.loops) == 2 and zl == [id(acc.loops[0])] and not zg, "R2", A.loc(fn, {"line": z.line}),
                   "%s: the accumulator is reset for every bunch (reset inside the bunch loop, outside the sum)" % nm, "%s:reset-per-bunch" % nm)
         iL = acc.loops[-1]
@@ -146,8 +149,11 @@ def run(chk, prog):
         chk.check(fac.value is not None and sp.simplify(fac.value - wf) == 0, "R2", A.loc(fn, {"line": fac.line}),
                   "%s: normalised by delta(axis)/filling[n] (got %s)" % (nm, fac.value), "%s:factor:%s" % (nm, fac.value))
         st = [a for a in s.accesses if a.kind == "store" and a.base == target[0] and a.idx is not None and a.idx[1] == target[1]]
-        chk.check(len(st) == 1 and st[0].idx == (axis, target[1], nsym) and str(st[0].value) == var, "R2", A.loc(fn, {"line": st[0].line if st else fn["line"]}),
-                  "%s: result stored as moment %d of (axis, bunch n)" % (nm, target[1]), "%s:store" % nm)
+        # one store of the accumulated value; a second one may put 0 for an empty bucket (the branch that skips the sum)
+        st_val = [a for a in st if str(a.value) == var]
+        st_zero = [a for a in st if a.value == 0 and a not in st_val]
+        chk.check(len(st_val) == 1 and len(st_val) + len(st_zero) == len(st) and all(a.idx == (axis, target[1], nsym) for a in st), "R2",
+                  A.loc(fn, {"line": st[0].line if st else fn["line"]}), "%s: result stored as moment %d of (axis, bunch n)" % (nm, target[1]), "%s:store" % nm)
         guard_ok = all(any("_filling_set[n] > 0" in A.show(g).replace("(", "").replace(")", "") for g, pol in a.guards if pol and isinstance(g, dict) and "k" in g and g["k"] not in ("SwitchCase", "Catch")) for a in (acc, fac))
         chk.check(guard_ok, "R2", site, "%s: empty buckets (filling_set <= 0) report 0 instead of dividing by their charge" % nm, "%s:empty-guard" % nm)
     sv = scans["variance"]
